@@ -186,7 +186,7 @@ impl<W, R, T> CompilationScope<'_, W, R, T> {
                             }
                             .trace(&input));
                         }
-                        Some(bind) if !bind.is_empty() => {
+                        Some(bind) if !bind.binds_only(None) => {
                             return Err(CompilationError::VariableTypeMismatch {
                                 variable_name: symbol,
                                 expected_type: complete_type,
@@ -243,7 +243,7 @@ impl<W, R, T> CompilationScope<'_, W, R, T> {
                         }
                         .trace(&out_pair));
                     }
-                    Some(return_bind) if !return_bind.is_empty() => {
+                    Some(return_bind) if !return_bind.binds_only(None) => {
                         return Err(CompilationError::FunctionOutputTypeMismatch {
                             function_name: fn_symbol,
                             expected_type: spec.ret,
